@@ -18,7 +18,8 @@ META = {
                    'the struct copy and a full fence, and makes losers spin; (4) the set of __wrap_ symbols equals the --wrap list '
                    'of src/myth-ld.opts; (5) compile-time ABI witnesses (sizes, initialiser bit patterns, constants); (6) return '
                    'conventions: every value a body can return and the wrapper passes through is in the POSIX result set of the '
-                   'wrapped function (constants folded from the body\'s IR), otherwise the wrapper must translate it.',
+                   'wrapped function (constants folded from the body\'s IR), otherwise the wrapper must translate it.'
+                   ' C16.7 (open finding D16): the exit walk calls a destructor without testing the value non-NULL; C16.8: every real_<f> of myth_real.c reaches the system function of the same name in all three flavours, forwarding its parameters in order.',
     'not_decided': 'equality of observable results of whole programs (differential execution); cancellation, scheduling '
                    'parameters, robust/recursive mutex types (unsupported: forwarded to the real library or warned)',
     'assumptions': ['glibc pthread types and constants of this platform', 'pthread_timedjoin_np is a non-POSIX extension: its timeout code is not compared'],
